@@ -252,14 +252,250 @@ Definition entry_nodup (e : entry) : Prop :=
   match e with
   | EItem t => NoDup (vars t)
   | EMsg m => NoDup (vars (m_item m))
+  | EParse r => Forall (fun m => NoDup (vars (m_item m))) (r_msgs r)
   | _ => True
   end.
+
+(* ---- the SML parser only returns factory-built items ---- *)
+
+Lemma build_nodup nk args t : build nk args = Some t -> NoDup (vars t).
+Proof. destruct nk; cbn [build]; apply new_leaf_nodup. Qed.
+
+Lemma ascii_literal_nodup st ts n acc mn mx t st' :
+  ascii_literal st ts n acc mn mx = (IOk t, st') -> NoDup (vars t).
+Proof.
+  revert st acc. induction ts as [|tk ts IH]; intros st acc H; cbn [ascii_literal] in H.
+  - destruct (new_ascii acc) eqn:E; inversion H; subst. eapply new_ascii_nodup; exact E.
+  - destruct (t_typ tk);
+      repeat match type of H with
+             | (let '(_, _) := ?x in _) = _ => destruct x
+             | (if ?c then _ else _) = _ => destruct c eqn:?
+             | (match ?x with _ => _ end, _) = _ => destruct x eqn:?
+             end; try (eapply IH; exact H); try (inversion H; subst; cbn; repeat constructor; auto; fail); try discriminate.
+    all: try (inversion H; subst; eapply new_ascii_var_nodup; eassumption).
+Qed.
+
+Lemma parse_item_body_nodup floats rec_list :
+  (forall st acc count t st', rec_list st acc count = (IOk t, st') -> NoDup (vars t)) ->
+  forall st t st', parse_item_body floats rec_list st = (Some t, st') -> NoDup (vars t).
+Proof.
+  intros Hl st t st' H. unfold parse_item_body in H.
+  repeat match type of H with
+         | (let '(_, _) := ?x in _) = _ => destruct x eqn:?
+         | (if ?c then _ else _) = _ => destruct c eqn:?
+         | match ?x with _ => _ end = _ => destruct x eqn:?
+         end; try discriminate; inversion H; subst; clear H.
+  all: repeat match goal with
+              | H : (let '(_, _) := ?x in _) = _ |- _ => destruct x eqn:?
+              | H : (if ?c then _ else _) = (_, _, _) |- _ => destruct c eqn:?
+              | H : match ?x with _ => _ end = (_, _, _) |- _ => destruct x eqn:?
+              end.
+  all: repeat match goal with
+              | H : (_, _, _) = (_, _, _) |- _ => inversion H; subst; clear H
+              end.
+  all: try (eapply Hl; eassumption).
+  all: try (match goal with H : parse_numeric _ _ _ = (IOk _, _) |- _ =>
+              unfold parse_numeric in H;
+              repeat match type of H with
+                     | (let '(_, _) := ?x in _) = _ => destruct x eqn:?
+                     | match ?x with _ => _ end = _ => destruct x eqn:?
+                     end; try discriminate; inversion H; subst; eapply build_nodup; eassumption end).
+  all: try (match goal with H : ascii_literal _ _ _ _ _ _ = (IOk ?t, _) |- NoDup (vars ?t) => eapply ascii_literal_nodup; exact H end).
+  all: try (cbn; constructor).
+  all: try (match goal with
+            | H : ascii_literal _ _ _ _ _ _ = (?i, _), H0 : match ?i with _ => _ end = IOk ?t |- NoDup (vars ?t) =>
+              destruct i as [it| |]; try discriminate;
+              pose proof (ascii_literal_nodup _ _ _ _ _ _ _ _ H) as Hn;
+              destruct it; try (inversion H0; subst; exact Hn);
+              match goal with n : bytes |- _ => destruct n; inversion H0; subst; try exact Hn; cbn; constructor end
+            end).
+Qed.
+
+Lemma parse_list_body_nodup rec_item rec_list :
+  (forall st acc count t st', rec_list st acc count = (IOk t, st') -> NoDup (vars t)) ->
+  forall st acc count t st', parse_list_body rec_item rec_list st acc count = (IOk t, st') -> NoDup (vars t).
+Proof.
+  intros Hl st acc count t st' H. unfold parse_list_body in H.
+  destruct (t_typ (peek st)) eqn:Et; try (inversion H; fail);
+    repeat match type of H with
+           | (let '(_, _) := ?x in _) = _ => destruct x eqn:?
+           | (if ?c then _ else _) = _ => destruct c eqn:?
+           | match ?x with _ => _ end = _ => destruct x eqn:?
+           end; try discriminate; try (eapply Hl; exact H).
+  all: try (inversion H; subst; eapply new_list_nodup; eassumption).
+  all: try (destruct (new_list acc) eqn:E; inversion H; subst; eapply new_list_nodup; exact E).
+Qed.
+
+Lemma parse_nodup floats fuel :
+  (forall st t st', parse_item floats fuel st = (Some t, st') -> NoDup (vars t)) /\
+  (forall st acc count t st', parse_list floats fuel st acc count = (IOk t, st') -> NoDup (vars t)).
+Proof.
+  induction fuel as [|f [IHi IHl]]; [split; intros; discriminate|]. split.
+  - intros st t st' H. cbn [parse_item] in H. eapply parse_item_body_nodup; [exact IHl|exact H].
+  - intros st acc count t st' H. cbn [parse_list] in H. eapply parse_list_body_nodup; [exact IHl|exact H].
+Qed.
+
+
 
 Lemma of_parse_nodup o : (forall m, o = Some (HData m) -> NoDup (vars (m_item m))) -> entry_nodup (of_parse o).
 Proof. destruct o as [[m|h]|]; cbn; auto. Qed.
 
 Lemma check_item m m' : check m = Some m' -> m' = m.
 Proof. unfold check. destruct (msg_ok m); [|discriminate]. intro H; inversion H; reflexivity. Qed.
+
+Lemma msgs_err st t k : msgs (err st t k) = msgs st. Proof. reflexivity. Qed.
+Lemma msgs_warn st t k : msgs (warn st t k) = msgs st. Proof. reflexivity. Qed.
+Lemma msgs_advance st : msgs (advance st) = msgs st. Proof. reflexivity. Qed.
+Lemma msgs_add_name st n : msgs (add_name st n) = msgs st. Proof. reflexivity. Qed.
+Lemma msgs_with_ecount st e : msgs (with_ecount st e) = msgs st. Proof. reflexivity. Qed.
+Lemma msgs_reset st : msgs (reset_msg_scope st) = msgs st. Proof. reflexivity. Qed.
+Lemma msgs_crash st : msgs (crash st) = msgs st. Proof. reflexivity. Qed.
+#[export] Hint Rewrite msgs_err msgs_warn msgs_advance msgs_add_name msgs_with_ecount msgs_reset msgs_crash : msgs_db.
+
+Lemma take_values_msgs st vs st' : take_values st = (vs, st') -> msgs st' = msgs st.
+Proof. unfold take_values. destruct (value_tokens (toks st)). intro H; inversion H; reflexivity. Qed.
+
+Lemma value_arg_msgs floats nk st t g st1 : value_arg floats nk st t = Some (g, st1) -> msgs st1 = msgs st.
+Proof.
+  unfold value_arg. intro E.
+  repeat match type of E with
+         | (let '(_, _) := ?x in _) = _ => destruct x eqn:?
+         | (if ?c then _ else _) = _ => destruct c eqn:?
+         | match ?x with _ => _ end = _ => destruct x eqn:?
+         end; try discriminate; inversion E; subst;
+  repeat match goal with |- context [match ?x with _ => _ end] => destruct x end; reflexivity.
+Qed.
+
+Lemma value_args_msgs floats nk ts : forall st o st', value_args floats nk st ts = (o, st') -> msgs st' = msgs st.
+Proof.
+  induction ts as [|t ts IH]; intros st o st' H; cbn [value_args] in H; [inversion H; reflexivity|].
+  destruct (value_arg floats nk st t) as [[g st1]|] eqn:E.
+  - destruct (value_args floats nk st1 ts) as [o2 st2] eqn:E2. inversion H; subst. rewrite (IH _ _ _ E2).
+    eapply value_arg_msgs; exact E.
+  - inversion H; subst. destruct (t_typ t); reflexivity.
+Qed.
+
+Lemma parse_numeric_msgs floats nk st r st' : parse_numeric floats nk st = (r, st') -> msgs st' = msgs st.
+Proof.
+  unfold parse_numeric. destruct (take_values st) as [vs st0] eqn:E0. destruct (value_args floats nk st0 vs) as [o st1] eqn:E1.
+  intro H. apply take_values_msgs in E0. apply value_args_msgs in E1.
+  destruct o; [destruct (build nk l)|]; inversion H; subst; congruence.
+Qed.
+
+Lemma ascii_literal_msgs ts : forall st n acc mn mx r st', ascii_literal st ts n acc mn mx = (r, st') -> msgs st' = msgs st.
+Proof.
+  induction ts as [|t ts IH]; intros st n acc mn mx r st' H; cbn [ascii_literal] in H; [inversion H; reflexivity|].
+  destruct (t_typ t);
+    repeat match type of H with
+           | (let '(_, _) := ?x in _) = _ => destruct x eqn:?
+           | (if ?c then _ else _) = _ => destruct c eqn:?
+           end;
+    try (apply IH in H; rewrite H; repeat match goal with |- context [match ?x with _ => _ end] => destruct x end; reflexivity);
+    try (inversion H; subst; reflexivity).
+Qed.
+
+Definition msgs_nodup (st : pstate) : Prop := Forall (fun m => NoDup (vars (m_item m))) (msgs st).
+
+Lemma parse_item_body_msgs floats rec_list :
+  (forall st acc count r st', rec_list st acc count = (r, st') -> msgs st' = msgs st) ->
+  forall st o st', parse_item_body floats rec_list st = (o, st') -> msgs st' = msgs st.
+Proof.
+  intros Hl st o st' H. unfold parse_item_body in H.
+  repeat match type of H with
+         | (let '(_, _) := ?x in _) = _ => destruct x eqn:?
+         | (if ?c then _ else _) = _ => destruct c eqn:?
+         | match ?x with _ => _ end = _ => destruct x eqn:?
+         end; inversion H; subst; clear H;
+  repeat match goal with
+         | H : (let '(_, _) := ?x in _) = _ |- _ => destruct x eqn:?
+         | H : (if ?c then _ else _) = (_, _, _) |- _ => destruct c eqn:?
+         | H : (if ?c then _ else _) = (_, _, _, _) |- _ => destruct c eqn:?
+         | H : match ?x with _ => _ end = (_, _, _) |- _ => destruct x eqn:?
+         end;
+  repeat match goal with
+         | H : (_, _, _, _) = (_, _, _, _) |- _ => inversion H; subst; clear H
+         | H : (_, _, _) = (_, _, _) |- _ => inversion H; subst; clear H
+         end;
+  repeat match goal with
+         | H : rec_list _ _ _ = _ |- _ => apply Hl in H
+         | H : parse_numeric _ _ _ = _ |- _ => apply parse_numeric_msgs in H
+         | H : ascii_literal _ _ _ _ _ _ = _ |- _ => apply ascii_literal_msgs in H
+         | H : take_values _ = _ |- _ => apply take_values_msgs in H
+         end;
+  repeat match goal with |- context [if ?c then _ else _] => destruct c end;
+  autorewrite with msgs_db in *; congruence.
+Qed.
+
+Lemma parse_list_body_msgs rec_item rec_list :
+  (forall st o st', rec_item st = (o, st') -> msgs st' = msgs st) ->
+  (forall st acc count r st', rec_list st acc count = (r, st') -> msgs st' = msgs st) ->
+  forall st acc count r st', parse_list_body rec_item rec_list st acc count = (r, st') -> msgs st' = msgs st.
+Proof.
+  intros Hi Hl st acc count r st' H. unfold parse_list_body in H.
+  destruct (t_typ (peek st));
+    repeat match type of H with
+           | (let '(_, _) := ?x in _) = _ => destruct x eqn:?
+           | (if ?c then _ else _) = _ => destruct c eqn:?
+           | match ?x with _ => _ end = _ => destruct x eqn:?
+           end;
+    try (apply Hl in H);
+    try (inversion H; subst; clear H);
+    repeat match goal with Hx : rec_item _ = _ |- _ => apply Hi in Hx end;
+    repeat match goal with |- context [if ?c then _ else _] => destruct c end;
+    repeat match goal with Hx : context [if ?c then _ else _] |- _ => destruct c end;
+    autorewrite with msgs_db in *; congruence.
+Qed.
+
+Lemma parse_item_msgs floats fuel :
+  (forall st o st', parse_item floats fuel st = (o, st') -> msgs st' = msgs st) /\
+  (forall st acc count r st', parse_list floats fuel st acc count = (r, st') -> msgs st' = msgs st).
+Proof.
+  induction fuel as [|f [IHi IHl]]; [split; intros; cbn in *; inversion H; reflexivity|]. split.
+  - intros st o st' H. cbn [parse_item] in H. eapply parse_item_body_msgs; [exact IHl|exact H].
+  - intros st acc count r st' H. cbn [parse_list] in H. eapply parse_list_body_msgs; [exact IHi|exact IHl|exact H].
+Qed.
+
+Lemma parse_message_nodup floats st ok st' : msgs_nodup st -> parse_message floats st = (ok, st') -> msgs_nodup st'.
+Proof.
+  intros Hn H. unfold parse_message in H.
+  repeat match type of H with
+         | (let '(_, _) := ?x in _) = _ => destruct x eqn:?
+         | (if ?c then _ else _) = _ => destruct c eqn:?
+         | match ?x with _ => _ end = _ => destruct x eqn:?
+         end; inversion H; subst; clear H; unfold msgs_nodup in *; cbn [msgs err warn advance reset_msg_scope add_msg crash] in *.
+  all: repeat match goal with
+              | H : (if ?c then _ else _) = (_, _) |- _ => destruct c eqn:?
+              end.
+  all: repeat match goal with
+              | H : (_, _) = (_, _) |- _ => inversion H; subst; clear H
+              end; cbn [msgs err warn advance reset_msg_scope add_msg crash] in *.
+  all: try match goal with H : parse_item _ _ _ = (?o, ?s) |- _ =>
+             let Hm := fresh in pose proof (proj1 (parse_item_msgs floats _) _ _ _ H) as Hm; cbn [msgs err warn advance reset_msg_scope] in Hm
+           end.
+  all: try (rewrite H in *; cbn [msgs err warn advance reset_msg_scope] in *).
+  all: try assumption.
+  all: try (apply Forall_app; split; [|constructor; [|constructor]]).
+  all: try match goal with H : new_data_message _ _ _ _ _ ?i = Some ?m |- NoDup (vars (m_item ?m)) =>
+             unfold new_data_message in H; apply check_item in H; subst; cbn [m_item]
+           end.
+  all: try (cbn; constructor).
+  all: try (match goal with H : parse_item _ _ _ = (Some ?t, _) |- NoDup (vars ?t) => eapply (proj1 (parse_nodup floats _)); exact H end).
+  all: try congruence.
+Qed.
+
+Lemma parse_loop_nodup floats fuel : forall st, msgs_nodup st -> msgs_nodup (parse_loop floats fuel st).
+Proof.
+  induction fuel as [|f IH]; intros st Hn; cbn [parse_loop]; [exact Hn|].
+  destruct (typ_is (peek st) TEOF); [exact Hn|]. destruct (parse_message floats st) as [ok st1] eqn:E.
+  pose proof (parse_message_nodup _ _ _ _ Hn E). destruct ok; [apply IH|]; assumption.
+Qed.
+
+Lemma sml_parse_nodup alnum floats input : Forall (fun m => NoDup (vars (m_item m))) (r_msgs (sml_parse alnum floats input)).
+Proof.
+  unfold sml_parse. cbn [r_msgs].
+  match goal with |- context [parse_loop ?f ?n ?s] => pose proof (parse_loop_nodup f n s) as H; set (st := parse_loop f n s) in * end.
+  destruct (errs st); [apply H; constructor|constructor].
+Qed.
 
 Theorem eval_step_nodup p s : Forall entry_nodup p -> entry_nodup (eval_step p s).
 Proof.
@@ -300,6 +536,12 @@ Proof.
              unfold fill_msg in H; destruct (fill _ _) eqn:Ef; [|discriminate]; apply check_item in H; subst; cbn [m_item with_item];
              eapply fill_nodup; [|exact Ef]; eauto
            end.
+all: try (apply sml_parse_nodup).
+  all: try (match goal with
+            | E : nth_error _ ?r = Some (EParse ?res), E2 : nth_error (r_msgs ?res) ?i = Some ?m |- NoDup (vars (m_item ?m)) =>
+              apply nth_error_In in E; rewrite Forall_forall in Hp; specialize (Hp _ E); cbn [entry_nodup] in Hp;
+              rewrite Forall_forall in Hp; apply Hp; eapply nth_error_In; exact E2
+            end).
 Qed.
 
 Theorem run_nodup steps : Forall entry_nodup (run steps).
